@@ -231,7 +231,8 @@ def run_scenario(ex, fnode, c, scen):
             lab, e = r if isinstance(r, tuple) else ('req%d' % i, r)
             ex.assume(S.spec_eval(e, env_pre, extra))
         for g, e in c.ghost.items():
-            ex.store['ghost_' + g] = S.spec_eval_term(e, env_pre, extra)
+            gv = S.spec_eval_term(e, env_pre, extra)
+            ex.store['ghost_' + g] = gv.tree if isinstance(gv, S.W) else gv
             ex.names[g] = Path('ghost_' + g)
             names[g] = Path('ghost_' + g)
         for e in c.body_assumes:
